@@ -86,6 +86,14 @@ func arityScenarioPath(tuple []ct.Comp, depth int, path model.Path) *engine.Scen
 		for _, rc := range relc {
 			family = append(family, model.FilterSpec{Params: tuple, Rels: rel(rc, 0)}, model.FilterSpec{Params: tuple, Rels: rel(rc, model.ZeroTarget)})
 		}
+		if len(relc) >= 2 {
+			// targets for both relation components at once (entities may agree in the first and differ in the second)
+			both := func(t1, t2 int) []model.RelT {
+				return []model.RelT{{C: relc[0], T: t1}, {C: relc[1], T: t2}}
+			}
+			family = append(family, model.FilterSpec{Params: tuple, Rels: both(0, 0)}, model.FilterSpec{Params: tuple, Rels: both(0, model.ZeroTarget)},
+				model.FilterSpec{Params: tuple, Rels: both(model.ZeroTarget, 0)})
+		}
 	}
 	var obs []model.ObsSpec
 	var pre []model.Op
